@@ -127,6 +127,9 @@ def GenerateRxnNet(initial_reactant, reaction_rules):
                         atoms.SetNoImplicit(True)
                         atoms.UpdatePropertyCache(strict=False)
                     Chem.AssignRadicals(mol)
+                    # products carry no ring information; a rule whose pattern
+                    # uses a ring primitive (@, R, r) needs it
+                    Chem.FastFindRings(mol)
                     # Remove molecule with atoms with over valence
                 for i in range(len(products)-1, -1, -1):
                     for atoms in products[i].GetAtoms():
